@@ -859,11 +859,93 @@ def _record(col, spec, res, extra_classes=()):
         col.bump("records_below_INFO_ignored", res["below_info"])
 
 
+# ----------------------------------------------------------------------------- client configuration
+_PW = "$t:password:cfg:18"
+# how the secret sits in the value of the password option: plain, and next to every character
+# that means something to an INI parser (interpolation %, comment marks, separators, quotes)
+PW_SHAPES = [
+    [_PW], ["%", _PW], [_PW, "%"], ["$t:password:cfga:9", "%", "$t:password:cfgb:9"],
+    ["%(", _PW, ")s"], ["%(other)s", _PW], ["%%", _PW], [_PW, "%(host)s"], ["%(", _PW],
+    [_PW, " ; trailing"], [_PW, " # trailing"], ["'", _PW, "'"], ['"', _PW, '"'],
+    [_PW, "=", "$t:password:cfgc:9"], [" ", _PW, " "], ["${", _PW, "}"], ["$", _PW],
+    ["None", _PW], [_PW, "\\"], ["\t", _PW],
+]
+_BASE_OPTS = [["host", ["127.0.0.1"]], ["port", ["5696"]], ["keyfile", ["/nonexistent/key.pem"]],
+              ["certfile", ["/nonexistent/cert.pem"]], ["cert_reqs", ["CERT_REQUIRED"]],
+              ["ssl_version", ["PROTOCOL_SSLv23"]], ["ca_certs", ["/nonexistent/ca.pem"]],
+              ["do_handshake_on_connect", ["True"]], ["suppress_ragged_eofs", ["True"]]]
+_BAD_OPTS = [["port", ["not-a-number"]], ["port", ["%"]], ["ssl_version", ["PROTOCOL_NONE"]],
+             ["cert_reqs", ["%(nothing)s"]], ["do_handshake_on_connect", ["maybe"]],
+             ["host", ["%(password)s"]], ["keyfile", ["%(password)s"]], ["host", [""]]]
+
+
+def config_grid():
+    """Every password shape x api x {password only, username+password, a broken neighbour option,
+    password in [DEFAULT], client pointed at a missing section}."""
+    out = []
+    for si, shape in enumerate(PW_SHAPES):
+        for api in ("pie", "proxy"):
+            variants = [
+                ("pw", [["client", _BASE_OPTS + [["password", shape]]]], "client"),
+                ("userpw", [["client", _BASE_OPTS + [["username", ["operator"]],
+                                                      ["password", shape]]]], "client"),
+                ("default-section", [["DEFAULT", [["password", shape]]],
+                                     ["client", _BASE_OPTS + [["username", ["operator"]]]]],
+                 "client"),
+                ("missing-section", [["other", _BASE_OPTS + [["username", ["operator"]],
+                                                             ["password", shape]]]], "client"),
+            ]
+            for bi, bad in enumerate(_BAD_OPTS):
+                opts = [o for o in _BASE_OPTS if o[0] != bad[0]] + [bad]
+                variants.append(("bad%d" % bi, [["client", opts + [["username", ["operator"]],
+                                                                    ["password", shape]]]],
+                                 "client"))
+            for name, sections, cfg in variants:
+                label = "config-%s-shape%d-%s" % (api, si, name)
+                out.append({"mode": "client-config", "seed": label, "label": label, "api": api,
+                            "sections": sections, "config": cfg})
+    return out
+
+
+@st.composite
+def random_config_case(draw):
+    seed = draw(st.integers(0, 10 ** 6))
+    deco = st.sampled_from(["", "%", "%%", "%(", ")s", "%(x)s", ";", "#", "=", ":", " ", "'", '"',
+                            "$", "${", "}", "\\", "[", "]", "None", "\t"])
+    nparts = draw(st.integers(1, 3))
+    shape = []
+    for i in range(nparts):
+        shape.append(draw(deco))
+        shape.append("$t:password:r%d:%d" % (i, draw(st.sampled_from([9, 12, 18, 24]))))
+    shape.append(draw(deco))
+    shape = [x for x in shape if x != ""]
+    if shape and shape[0] in ("#", ";", "[", " ", "\t", "=", ":"):
+        shape = shape[1:] + [shape[0]]     # a leading comment mark would just hide the option
+    opts = [o for o in _BASE_OPTS if draw(st.integers(0, 4)) != 0]
+    for bad in _BAD_OPTS:
+        if draw(st.integers(0, 7)) == 0:
+            opts = [o for o in opts if o[0] != bad[0]] + [bad]
+    user = draw(st.sampled_from([None, ["operator"], ["$t:password:ru:12"], ["%"]]))
+    if user:
+        opts.append(["username", user])
+    where = draw(st.sampled_from(["client", "client", "client", "DEFAULT", "other"]))
+    sections = [["client", opts]]
+    if where == "client":
+        k = draw(st.integers(0, len(opts)))
+        sections = [["client", opts[:k] + [["password", shape]] + opts[k:]]]
+    else:
+        sections = [[where, [["password", shape]]], ["client", opts]]
+    return {"mode": "client-config", "seed": "rcfg%d" % seed, "label": "random-config",
+            "api": draw(st.sampled_from(["pie", "proxy"])), "sections": sections,
+            "config": draw(st.sampled_from(["client", "client", "client", "other", "missing"])),
+            "v": draw(st.sampled_from([[1, 0], [1, 2], [2, 0]]))}
+
+
 def grid_worker(tier, shard, nshards):
     import warnings
     warnings.filterwarnings("ignore")
     col = core.Collector(PID)
-    cases = grid_histories(tier) + client_histories(tier)
+    cases = grid_histories(tier) + client_histories(tier) + config_grid()
     for i, spec in enumerate(cases):
         if i % nshards != shard:
             continue
@@ -884,6 +966,7 @@ def random_worker(n_server, n_client, seed):
         core.draw_examples(random_server_case(), n_server, core.derive_seed(seed, "s"), one)
     if n_client:
         core.draw_examples(random_client_case(), n_client, core.derive_seed(seed, "c"), one)
+        core.draw_examples(random_config_case(), n_client * 4, core.derive_seed(seed, "f"), one)
     return col
 
 
@@ -900,4 +983,5 @@ def run(ctx):
     col.samples = sorted(col.samples, key=lambda cs: len(core.canon(cs[1])))[:3]
     col.extra["grid_histories"] = len(grid_histories(ctx.tier))
     col.extra["client_grid_histories"] = len(client_histories(ctx.tier))
+    col.extra["client_config_grid"] = len(config_grid())
     return col
